@@ -5,6 +5,8 @@ Stream `names`: param-class shapes over {str, int, float, Optional[...]} with ad
           int/float coercions): `_unique_name` vs the Lean `readable`; pairwise: equal params <=> equal names.
 Stream `cache`: random acyclic generator programs (fresh / handing-on bodies, nested calls) and call sequences with
           repeated keys in both call forms: identity of returned modules, body-run log, module names vs the Lean `run`.
+Stream `scalar`: Scalar-valued fields: Literals spelling the very text a number is named by.
+Stream `uncached`: `enable_cache=False` generators: equal calls, customised results, one design.
 Stream `shapes`: nested param-classes, enum, Prefixed, Module- and Generator-valued fields (md5-of-JSON form): equal
           params <=> equal names, exported together in one package.
 """
@@ -29,23 +31,44 @@ DT = {"str": str, "int": int, "float": float, "ostr": Optional[str], "oint": Opt
 STRS = ["x", "x b=y", "y b=z", "z", "", " ", "=", 'q"', "\\", '\\"', "None", "3", "3.0", "a=1 b=2", '"x"', "x\\", "é ü", "a" * 70, "b" * 130]
 
 
+OMIT = "__omit__"
+
+
 def make_pc(shape):
-    ns = {k: h.Param(dtype=DT[dt], desc=k) for k, dt in shape}
+    ns = {}
+    for ent in shape:
+        k, dt = ent[0], ent[1]
+        ns[k] = h.Param(dtype=DT[dt], desc=k, default=ent[2]) if len(ent) > 2 else h.Param(dtype=DT[dt], desc=k)
     return h.paramclass(type("P", (), ns))
 
 
 def impl_name(case):
     P = make_pc(case["shape"])
+    keys = [ent[0] for ent in case["shape"]]
+
+    def body(p: P) -> h.Module:
+        return h.Module()
+
+    body.__name__ = "G"
+    G = h.generator(body)
     out = []
     insts = []
     for vals in case["values"]:
+        kw = {k: v for k, v in zip(keys, vals) if v != OMIT}
         try:
-            p = P(**dict(zip([k for k, _ in case["shape"]], vals)))
+            p = P(**kw)
             insts.append(p)
-            out.append({"name": _unique_name(p), "fields": [enc_field(getattr(p, k)) for k, _ in case["shape"]]})
+            out.append({"name": _unique_name(p), "fields": [enc_field(getattr(p, k)) for k in keys]})
         except Exception as ex:  # noqa
             insts.append(None)
             out.append({"reject": type(ex).__name__})
+            continue
+        # the two call forms: by keywords and by param-class instance
+        try:
+            m_kw, m_inst, m_again = G(**kw), G(p), G(P(**kw))
+            out[-1]["forms"] = {"same": m_kw is m_inst and m_inst is m_again, "kw": m_kw.name, "inst": m_inst.name}
+        except Exception as ex:  # noqa
+            out[-1]["forms"] = {"raised": f"{type(ex).__name__}: {str(ex)[:100]}"}
     eq = [[(a is not None and b is not None and a == b) for b in insts] for a in insts]
     return {"vals": out, "eq": eq}
 
@@ -59,12 +82,19 @@ def line_name(case):
 
 
 def judge_names(case, im, mo):
-    keys = [k for k, _ in case["shape"]]
     vals = im["vals"]
     for i, a in enumerate(vals):
         if "reject" in a:
             continue
         model = mo[i]
+        f = a.get("forms")
+        if f is not None:
+            if "raised" in f:
+                yield ("corr", f"value {case['values'][i]}: generator call raised {f['raised']}")
+            elif not f["same"] or f["kw"] != f["inst"]:
+                yield ("pred", f"value {case['values'][i]}: call by keywords and call by instance give two modules: {f['kw']!r} / {f['inst']!r}", "forms")
+            elif f["inst"] != "G(" + a["name"] + ")":
+                yield ("pred", f"value {case['values'][i]}: module named {f['inst']!r}, its parameters are named {a['name']!r}", "forms")
         if len(model) < 128:
             if a["name"] != model:
                 yield ("corr", f"value {case['values'][i]}: name {a['name']!r} vs model {model!r}")
@@ -89,7 +119,7 @@ class NameStream(Stream):
         for ci, (c, im) in enumerate(zip(cases, impls)):
             for vi, v in enumerate(im["vals"]):
                 if "reject" not in v:
-                    lines.append({"prop": "C09", "op": "readable", "kvs": [[k, f] for (k, _), f in zip(c["shape"], v["fields"])]})
+                    lines.append({"prop": "C09", "op": "readable", "kvs": [[k, f] for (k, _), f in zip([e[:2] for e in c["shape"]], v["fields"])]})
                     where.append((ci, vi))
         outs = ctx.drv.run(lines)
         models = [dict() for _ in cases]
@@ -107,7 +137,7 @@ SN = NameStream("names", impl_name, line_name, judge_names, chunk=8)
 
 def replay_names(ctx, case):
     im = impl_name(case)
-    lines = [{"prop": "C09", "op": "readable", "kvs": [[k, f] for (k, _), f in zip(case["shape"], v["fields"])]} for v in im["vals"] if "reject" not in v]
+    lines = [{"prop": "C09", "op": "readable", "kvs": [[k, f] for (k, _), f in zip([e[:2] for e in case["shape"]], v["fields"])]} for v in im["vals"] if "reject" not in v]
     outs = iter(ctx.drv.run(lines))
     mo = {i: next(outs)["name"] for i, v in enumerate(im["vals"]) if "reject" not in v}
     return list(judge_names(case, im, mo)), im, mo
@@ -118,6 +148,7 @@ def replay_names(ctx, case):
 
 def impl_cache(case):
     ngen = case["ngen"]
+    pv = case.get("pvals", [0, 1, 2])  # the model's parameter k is the value pv[k]
     table = {(e["gen"], e["params"]): e["body"] for e in case["prog"]}
     runs, created = [], []
 
@@ -132,7 +163,7 @@ def impl_cache(case):
     def call(g, n, form):
         if g in noparams:
             return gens[g]() if form else gens[g](h.NoParams)
-        return gens[g](n=n) if form else gens[g](P(n=n))
+        return gens[g](n=pv[n]) if form else gens[g](P(n=pv[n]))
 
     def mk(g):
         def work(n):
@@ -152,7 +183,7 @@ def impl_cache(case):
                 return work(0)
         else:
             def body(p: P) -> h.Module:
-                return work(p.n)
+                return work(pv.index(p.n))
 
         body.__name__ = f"g{g}"
         return h.generator(body)
@@ -167,7 +198,7 @@ def impl_cache(case):
         except Exception as ex:  # noqa
             rets.append(None)
     names = [m.name for m in created]
-    genby = [{"gen": int(m._generated_by.gen.name[1:]), "params": getattr(m._generated_by.params, "n", 0)} for m in created]
+    genby = [{"gen": int(m._generated_by.gen.name[1:]), "params": pv.index(getattr(m._generated_by.params, "n", pv[0])) if int(m._generated_by.gen.name[1:]) not in noparams else 0} for m in created]
     # export everything together: no two modules under one name
     export = "ok"
     try:
@@ -202,7 +233,8 @@ def judge_cache(case, im, mo):
     if len(set(im["names"])) != len(im["names"]):
         yield ("pred", f"two generated modules share one name: {im['names']}", "names")
     nop = set(case.get("noparams", []))
-    want_names = [(f"g{c['gen']}" if c["gen"] in nop else f"g{c['gen']}(n={c['params']})") if c else None for c in mo["named_by"]]
+    pv = case.get("pvals", [0, 1, 2])
+    want_names = [(f"g{c['gen']}" if c["gen"] in nop else f"g{c['gen']}(n={pv[c['params']]})") if c else None for c in mo["named_by"]]
     if im["names"] != want_names:
         yield ("pred", f"module names depend on more than generator and parameters: {im['names']} vs {want_names}", "renamed")
     if isinstance(im["export"], str):
@@ -238,7 +270,9 @@ def gen_prog(rng):
         if c["gen"] in noparams:
             c["params"] = 0
     prog = [e for e in prog if not (e["gen"] in noparams and e["params"] != 0)]
-    return {"ngen": ngen, "prog": prog, "calls": calls, "noparams": noparams}
+    # values whose hashes collide in CPython (hash(-1) == hash(-2), hash(2**61 - 1) == hash(0)): equality, not the hash, keys the cache
+    pvals = rng.choice([[0, 1, 2], [-1, -2, 0], [0, 2**61 - 1, 1], [2, -2, -1]])
+    return {"ngen": ngen, "prog": prog, "calls": calls, "noparams": noparams, "pvals": pvals}
 
 
 # ------------------------------------------------------------------ shapes stream (hashed names)
@@ -292,6 +326,104 @@ def shapes_check(ctx):
                          f"names {mods[i].name} / {mods[j].name}", "names")
 
 
+def scalar_check(ctx):
+    """`Scalar` (Prefixed | Literal) fields: a Literal whose text is the text some number is named by is still
+    a different value, and gets a different name."""
+    rep = ctx.rep
+    from hdl21.params import hdl21_naming_encoder
+
+    @h.paramclass
+    class Sc:
+        x = h.Param(dtype=h.Scalar, desc="x")
+        y = h.Param(dtype=Optional[h.Scalar], desc="y", default=None)
+
+    @h.generator
+    def GS(p: Sc) -> h.Module:
+        return h.Module()
+
+    nums = [1 * h.prefix.n, 1000 * h.prefix.p, h.Prefixed.new(5), 1 * h.prefix.K, h.Prefixed.new(0.5), 2 * h.prefix.n]
+    texts = ["x", "1e-9", "1*n", ""]
+    for v in nums:  # the adversarial part: whatever text the encoder derives from a number, as a Literal
+        enc = hdl21_naming_encoder(v)
+        texts += [enc if isinstance(enc, str) else json.dumps(enc), json.dumps(enc), str(v), repr(v)]
+    pool = nums + [h.Literal(t) for t in dict.fromkeys(texts)]
+    vals = [Sc(x=a, y=b) for a in pool for b in [None] + pool[:8:3]]
+    vals.append(Sc(x=pool[0], y=h.Prefixed.new(hash(None))))  # collides with y=None in the cache's hash table
+    mods = []
+    for v in vals:
+        try:
+            mods.append(GS(v))
+        except Exception as ex:  # noqa
+            rep.fail("pred", {"stream": "scalar", "value": str(v)}, f"a valid generator call raised {type(ex).__name__}: {str(ex)[:150]}", "call-raised")
+            return
+    top = h.Module(name="ScTop")
+    for k, m in enumerate(dict.fromkeys(mods)):
+        top.add(m(), name=f"i{k}")
+    try:
+        h.to_proto(top)
+    except Exception as ex:  # noqa
+        rep.fail("pred", {"stream": "scalar"}, f"modules generated from different Scalar values cannot be exported together: {str(ex)[:200]}", "names")
+    for i in range(len(vals)):
+        for j in range(i):
+            rep.count("scalar", f"{i},{j}")
+            if (vals[i] == vals[j]) != (mods[i] is mods[j]) or (mods[i] is mods[j]) != (mods[i].name == mods[j].name):
+                rep.fail("pred", {"stream": "scalar", "i": str(vals[i]), "j": str(vals[j])},
+                         f"equal={vals[i] == vals[j]} same module={mods[i] is mods[j]} names {mods[i].name} / {mods[j].name}", "names")
+                return
+
+
+def uncached_check(ctx):
+    """Generators with `enable_cache=False` return a new module per call, equal calls give equal names: a design holding
+    two of them that differ is refused, or exported with a definition for each - never with one standing for both."""
+    rep = ctx.rep
+    rng = ctx.rng
+
+    @h.paramclass
+    class P:
+        n = h.Param(dtype=int, desc="n", default=2)
+
+    def body(p: P) -> h.Module:
+        m = h.Module()
+        m.io = h.Port(width=p.n)
+        return m
+
+    for t in range(12 if ctx.quick else 200):
+        body.__name__ = f"T{t}"
+        T = h.generator(body, enable_cache=False) if t % 3 else h.generator(enable_cache=False)(body)
+        ncopy = rng.randint(2, 4)
+        copies = [T(n=2) if rng.random() < 0.5 else T(P()) for _ in range(ncopy)]
+        extra = [rng.choice([None, "en", "vss", "en"]) for _ in copies]
+        if len(set(extra)) == 1:
+            extra[-1] = "clk"
+        for m, e in zip(copies, extra):
+            if e:
+                m.add(h.Port(name=e))
+        top = h.Module(name=f"UTop{t}")
+        top.bus, top.s = h.Signal(width=2), h.Signal()
+        order = list(range(ncopy))
+        rng.shuffle(order)
+        for k in order:
+            conns = {"io": top.bus, **({extra[k]: top.s} if extra[k] else {})}
+            top.add(copies[k](**conns), name=f"i{k}")
+        case = {"stream": "uncached", "extra": extra, "order": order}
+        rep.count("uncached", json.dumps(case) + str(t))
+        try:
+            pkg = h.to_proto(top)
+        except RuntimeError as ex:
+            if "onflict" not in str(ex):
+                rep.fail("corr", case, f"unexpected refusal: {str(ex)[:200]}")
+            continue
+        defs = {pm.name.split(".")[-1]: [p.signal for p in pm.ports] for pm in pkg.modules}
+        ptop = next(pm for pm in pkg.modules if pm.name.endswith(top.name))
+        for pi in ptop.instances:
+            want = sorted(c.portname for c in pi.connections)
+            got = sorted(defs.get(pi.module.local.split(".")[-1], []))
+            if want != got:
+                rep.fail("pred", case, f"instance {pi.name} connects ports {want} of a definition {pi.module.local!r} with ports {got}: "
+                         "two different generated modules were exported under one name", "names")
+                break
+
+
 def collision_search(ctx):
     """Failing-input search for the readable name: every pair of strings over a small adversarial alphabet
     (up to length 4) as the two str fields of one param class; group by name; a name shared by two different
@@ -324,6 +456,9 @@ def corpus_names():
         {"shape": [["a", "str"], ["b", "str"]], "values": [["x b=y", "z"], ["x", "y b=z"], ["x", "y"], ['q"', "\\"], ["q", '"\\']]},
         {"shape": [["a", "ostr"]], "values": [[None], ["None"], ["3"], [""]]},
         {"shape": [["a", "ofloat"], ["b", "oint"]], "values": [[None, 3], [3, None], [3.0, 3], [1e-11, 0], [0.1, -1]]},
+        # an explicit None is a value, not "use the default"
+        {"shape": [["width", "int"], ["guard", "oint", 2]], "values": [[4, None], [4, OMIT], [4, 2]]},
+        {"shape": [["a", "ostr", "None"], ["b", "ofloat", 0.5]], "values": [[None, None], [OMIT, OMIT], ["None", 0.5], [None, OMIT]]},
     ]
 
 
@@ -336,25 +471,30 @@ def run(ctx):
     )
     cases = corpus_names()
     n = 150 if ctx.quick else 3000
+    def pick(dt, optional_none=True):
+        if dt in ("str", "ostr"):
+            return rng.choice(STRS + ([None] if dt == "ostr" and optional_none else []))
+        if dt in ("int", "oint"):
+            return rng.choice([0, 1, 3, -1, 10**30, 3.0] + ([None] if dt == "oint" and optional_none else []))
+        return rng.choice([0.1, 3, 3.0, 1e-11, 1e3, 1000.0, -0.0, 1e300] + ([None] if dt == "ofloat" and optional_none else []))
+
     for _ in range(n):
         shape = [[k, rng.choice(list(DT))] for k in rng.sample(["a", "b", "c", "w", "name"], rng.randint(1, 4))]
+        for ent in shape:
+            if rng.random() < 0.4:  # a default: optional fields get a non-None one two times in three
+                ent.append(pick(ent[1], optional_none=rng.random() < 0.33))
+        shape.sort(key=lambda ent: len(ent) > 2)  # dataclass rule: fields with defaults come last
         values = []
         for _ in range(6):
-            row = []
-            for k, dt in shape:
-                if dt in ("str", "ostr"):
-                    row.append(rng.choice(STRS + ([None] if dt == "ostr" else [])))
-                elif dt in ("int", "oint"):
-                    row.append(rng.choice([0, 1, 3, -1, 10**30, 3.0] + ([None] if dt == "oint" else [])))
-                else:
-                    row.append(rng.choice([0.1, 3, 3.0, 1e-11, 1e3, 1000.0, -0.0, 1e300] + ([None] if dt == "ofloat" else [])))
-            values.append(row)
+            values.append([OMIT if len(ent) > 2 and rng.random() < 0.3 else pick(ent[1]) for ent in shape])
         cases.append({"shape": shape, "values": values})
     SN.run(ctx, cases)
     if not ctx.quick or ctx.rep.corr_disagreements or ctx.rep.proof_broken:
         collision_search(ctx)  # thorough tier, and the failing-input search whenever the tie is broken
     SC.run(ctx, [gen_prog(rng) for _ in range(200 if ctx.quick else 4000)])
     shapes_check(ctx)
+    scalar_check(ctx)
+    uncached_check(ctx)
 
 
 def replay(ctx, rp):
